@@ -91,6 +91,12 @@ def main():
         conf = dict(conf)
         conf["logging"] = {"level": "debug", "request_content_on_debug": "True", "response_content_on_debug": "True",
                            "bad_put_request_content": "True", "request_header_on_debug": "True", "backtrace_on_debug": "True"}
+        # ... read off the configuration schema of the tree under test: every boolean option of the section is switched on
+        # (an option this list does not know yet is part of the dimension too)
+        import radicale.config
+        for opt, desc in radicale.config.DEFAULT_CONFIG_SCHEMA.get("logging", {}).items():
+            if desc.get("type") is bool:
+                conf["logging"][opt] = "True"
     srv = impl.Server(conf=conf, folder=spec["folder"])
     if spec.get("measure"):
         counting = Counting()
